@@ -76,7 +76,7 @@ DOLLAR_TEXT = ["pay $amount now", "US$100", "$amount", "$AMOUNT$amount", "a$b_1 
 SCRIPT_TEXT = ["C:\\temp\\new", "ends with a backslash\\", "semi;colon; it's", "-- not a comment", "/* nor ; this */ '", "a\\'b", "\\n is two chars", "é😀; \"dq\""]
 
 
-def _values(rnd, ty: str, n: int, dollar: bool = False, script: bool = False) -> list:
+def _values(rnd, ty: str, n: int, dollar: bool = False, script: bool = False, nop: bool = False) -> list:
     """n Python values exactly representable in the Snowflake type, edges first"""
     fam = _family(ty)
     if fam == "bool":
@@ -94,6 +94,8 @@ def _values(rnd, ty: str, n: int, dollar: bool = False, script: bool = False) ->
         pool = ["", " ", "a", "é😀𝄞", "it's", "back\\slash", "line1\nline2\ttab", "%s ? $x ; -- /* */", "x" * 1000, "\"dq\"", "NULL"]
         if ty == "CHAR" or ty == "CHARACTER":
             pool = ["a", "é", ""]
+        elif nop:
+            pool = NOP_TEXT + ["", "é😀𝄞"]
         elif script:
             pool = SCRIPT_TEXT + pool
         elif dollar:
@@ -210,7 +212,15 @@ def _run_case(conns, case) -> dict:
     import pandas as pd
     import snowflake.connector.pandas_tools as pt
     ty, path, vals = case["ty"], case["path"], case["vals"]
-    conn = conns["qmark"] if path == "qmark" else conns["py"]
+    if path == "http":
+        # read path through fakesnow.server.app + the real connector (the arrow wire encoding itself is decided by C17)
+        if "http" not in conns:
+            from props import c17
+            c17.NET_TIMEOUT["s"] = 30
+            conns["http"] = c17._http_conn(db_path=":isolated:", database="DB3", schema="S1")
+        conn = conns["http"]
+    else:
+        conn = conns["qmark"] if path == "qmark" else conns["py"]
     cur = conn.cursor()
     out = {"err": None}
     setvar = case.get("setvar")
@@ -229,14 +239,14 @@ def _run_case(conns, case) -> dict:
         if path == "write_pandas":
             # a quoted, lower-case column name with a space: `_insert_df` must insert by quoted column name
             cur.execute(f'create or replace table T (id int, c {ty}, "k w" varchar)')
-        elif path in ("literal", "execute_string", "pyformat", "qmark"):
+        elif path in ("literal", "http", "execute_string", "pyformat", "qmark"):
             cur.execute(f"create or replace table T {tgt_cols}")
         stage = path in ("insert-select", "ctas", "clone")
         if stage:
             cur.execute(f"create or replace table S {tgt_cols}")
             cur.execute("drop table if exists T")
         counts = []
-        if path == "literal" or stage:
+        if path in ("literal", "http") or stage:
             t = "S" if stage else "T"
             for i, v in enumerate(vals):
                 cur.execute(f"insert into {t} values ({i + 1}, {_literal(ty, v)})")
@@ -285,25 +295,26 @@ def _run_case(conns, case) -> dict:
         out["rows"] = [[r[0], _canon(r[1])] for r in cur.fetchall()]
         # the same result through the other fetch shapes: every written row exactly once whatever the shape
         shapes = {}
-        asz = 2 + (len(vals) % 2)
-        c2 = conn.cursor()
-        c2.execute("select id, c from T order by id")
-        c2.arraysize = asz
-        got = []
-        while (r := c2.fetchone()) is not None and len(got) < 100:
-            got.append([r[0], _canon(r[1])])
-        shapes[f"fetchone-loop(arraysize={asz})"] = got
-        c2.execute("select id, c from T order by id")
-        got = []
-        while (chunk := c2.fetchmany(asz)) and len(got) < 100:
-            got += [[r[0], _canon(r[1])] for r in chunk]
-        shapes[f"fetchmany({asz})-loop"] = got
-        c2.execute("select id, c from T order by id")
-        c2.arraysize = 3
-        got = [[r[0], _canon(r[1])] for r in (c2.fetchmany() + c2.fetchall())]
-        shapes["fetchmany()+fetchall"] = got
-        c2.execute("select id from T order by id")
-        shapes["fetch_pandas_all(ids)"] = [int(x) for x in c2.fetch_pandas_all()["ID"].tolist()]
+        if path != "http":      # the other fetch shapes of the fake cursor (the real connector's own cursor is not under test)
+            asz = 2 + (len(vals) % 2)
+            c2 = conn.cursor()
+            c2.execute("select id, c from T order by id")
+            c2.arraysize = asz
+            got = []
+            while (r := c2.fetchone()) is not None and len(got) < 100:
+                got.append([r[0], _canon(r[1])])
+            shapes[f"fetchone-loop(arraysize={asz})"] = got
+            c2.execute("select id, c from T order by id")
+            got = []
+            while (chunk := c2.fetchmany(asz)) and len(got) < 100:
+                got += [[r[0], _canon(r[1])] for r in chunk]
+            shapes[f"fetchmany({asz})-loop"] = got
+            c2.execute("select id, c from T order by id")
+            c2.arraysize = 3
+            got = [[r[0], _canon(r[1])] for r in (c2.fetchmany() + c2.fetchall())]
+            shapes["fetchmany()+fetchall"] = got
+            c2.execute("select id from T order by id")
+            shapes["fetch_pandas_all(ids)"] = [int(x) for x in c2.fetch_pandas_all()["ID"].tolist()]
         out["shapes"] = shapes
         try:
             d = cur.description[1]
@@ -366,20 +377,69 @@ def _run_copy(conns, case) -> dict:
     return out
 
 
+NOP_REGEXES = [r"CALL\s", r"GRANT\s"]        # un-anchored: `re.match` applies them at the start of the statement only
+NOP_TEXT = ["remember to call Bob", "grant approved", "CALL me maybe", "recall\tGRANT x", "they call\nus", "I grant  you"]
+
+
+def _run_persist(case) -> dict:
+    """write through one instance with db_path, read back through a second instance that spells the database differently"""
+    import shutil
+    import tempfile
+
+    import fakesnow
+    import snowflake.connector
+    ty, vals = case["ty"], case["vals"]
+    out = {"err": None}
+    d = tempfile.mkdtemp(prefix="c01-persist-")
+    try:
+        with fakesnow.patch(db_path=d):
+            conn = snowflake.connector.connect(database=case["spell_w"], schema="s1")
+            cur = conn.cursor()
+            cur.execute(f"create table T (id int, c {ty})")
+            for i, v in enumerate(vals):
+                cur.execute(f"insert into T values ({i + 1}, {_literal(ty, v)})")
+            cur.execute("select id, c from T order by id")
+            out["written"] = [[r[0], _canon(r[1])] for r in cur.fetchall()]
+            conn.close()
+        with fakesnow.patch(db_path=d):
+            conn = snowflake.connector.connect(database=case["spell_r"], schema="S1")
+            cur = conn.cursor()
+            cur.execute("select id, c from T order by id")
+            out["rows"] = [[r[0], _canon(r[1])] for r in cur.fetchall()]
+            conn.close()
+    except Exception as e:
+        out["err"] = [type(e).__name__, str(e)[:200]]
+    finally:
+        shutil.rmtree(d, ignore_errors=True)
+    return out
+
+
 def _worker(shard):
     import fakesnow
     import snowflake.connector
     decimal.getcontext().prec = 120
-    res = []
-    with fakesnow.patch():
-        snowflake.connector.paramstyle = "qmark"
-        try:
-            q = snowflake.connector.connect(database="DB1", schema="S1")
-        finally:
-            snowflake.connector.paramstyle = "pyformat"
-        conns = {"py": snowflake.connector.connect(database="DB2", schema="S1"), "qmark": q}
-        for case in shard:
-            res.append(_run_copy(conns, case) if case["kind"] == "copy" else _run_case(conns, case))
+    res = [None] * len(shard)
+
+    def phase(idx, **patch_kw):
+        if not idx:
+            return
+        with fakesnow.patch(**patch_kw):
+            snowflake.connector.paramstyle = "qmark"
+            try:
+                q = snowflake.connector.connect(database="DB1", schema="S1")
+            finally:
+                snowflake.connector.paramstyle = "pyformat"
+            conns = {"py": snowflake.connector.connect(database="DB2", schema="S1"), "qmark": q}
+            for i in idx:
+                case = shard[i]
+                res[i] = _run_copy(conns, case) if case["kind"] == "copy" else _run_case(conns, case)
+
+    phase([i for i, c in enumerate(shard) if c["kind"] in ("value", "copy") and not c.get("nop")])
+    # an instance configured with un-anchored nop_regexes: only statements that START with a match are no-ops
+    phase([i for i, c in enumerate(shard) if c.get("nop")], nop_regexes=NOP_REGEXES)
+    for i, c in enumerate(shard):
+        if c["kind"] == "persist":
+            res[i] = _run_persist(c)
     return res
 
 
@@ -415,6 +475,30 @@ def _cases(chk, rnd) -> list[dict]:
                 if dollar:
                     case["setvar"] = rnd.choice([True, True, False])     # a session variable `amount` is SET on the connection / not set
                 cases.append(case)
+    # a share of the cases on an instance with un-anchored nop_regexes; the written text contains the pattern words
+    for ty in ("VARCHAR", "STRING", "VARIANT", "NUMBER(10,2)"):
+        for path in PATHS:
+            for rep in range(1 if chk.tier == "quick" else 4):
+                fam = _family(ty)
+                if fam == "json":
+                    vals = [{"note": rnd.choice(NOP_TEXT)}, [rnd.choice(NOP_TEXT), 1], {"call ": "grant "}]
+                else:
+                    vals = _values(rnd, ty, 4, nop=fam == "text")
+                vals.insert(rnd.randrange(len(vals) + 1), None)
+                cases.append({"kind": "value", "ty": ty, "path": path, "vals": vals, "nop": True})
+    # HTTP read slice: written and read back through fakesnow.server.app with the real connector (wire encoding itself: C17)
+    for ty in ("TIMESTAMP_NTZ", "TIMESTAMP_TZ", "TIME", "DATE", "NUMBER(38,10)", "NUMBER(12,12)", "FLOAT", "VARCHAR"):
+        for rep in range(1 if chk.tier == "quick" else 4):
+            vals = _values(rnd, ty, 5)
+            if _family(ty) == "ntz":
+                vals[0] = datetime.datetime(1969, 12, 31, 23, 59, 59, 500000)      # pre-1970 with a sub-second part
+            vals.insert(rnd.randrange(len(vals) + 1), None)
+            cases.append({"kind": "value", "ty": ty, "path": "http", "vals": vals})
+    # persistence slice: written through one instance with db_path, read through a second one under another spelling of the database name
+    spells = [("sales", "SALES"), ("SALES", "sales"), ("Sales", "sAlEs"), ("sales", "sales")]
+    for i, (w, r) in enumerate(spells if chk.tier == "quick" else spells * 4):
+        ty = ["NUMBER(38,10)", "TIMESTAMP_NTZ", "VARCHAR", "FLOAT"][i % 4]
+        cases.append({"kind": "persist", "ty": ty, "vals": _values(rnd, ty, 3) + [None], "spell_w": w, "spell_r": r})
     # all-NULL and empty variants for a few types
     for ty in ("NUMBER(10,2)", "VARCHAR", "TIMESTAMP_TZ", "VARIANT", "INT"):
         for path in ("literal", "clone", "ctas", "insert-select"):
@@ -465,9 +549,13 @@ def _check_value(chk, case, real, tyrep, fitreps):
     fam = _family(ty)
     chk.count(f"path:{path}")
     chk.count(f"family:{fam}")
+    if case.get("nop"):
+        chk.count("nop-regexes-instance")
     chk.case((ty, path, repr(vals)), nontrivial=any(v is not None for v in vals),
              sample={"type": ty, "path": path, "values": [repr(v)[:40] for v in vals]} if path == "clone" and fam in ("tz", "number") else None)
     rcase = {"kind": "value", "ty": ty, "path": path, "vals": [_ser(v) for v in vals]}
+    if case.get("nop"):
+        rcase["nop"] = True
     if "setvar" in case:
         rcase["setvar"] = case["setvar"]
         chk.count("dollar-text:" + ("var-set" if case["setvar"] else "var-unset"))
@@ -610,6 +698,17 @@ def _deser(v):
     return v
 
 
+def _check_persist(chk, case, real):
+    chk.count("persist")
+    chk.case(("persist", case["spell_w"], case["spell_r"], case["ty"], repr(case["vals"])), nontrivial=True)
+    rcase = {"kind": "persist", "ty": case["ty"], "vals": [_ser(v) for v in case["vals"]], "spell_w": case["spell_w"], "spell_r": case["spell_r"]}
+    what = f"db_path instance: {case['ty']} values {case['vals']!r} written with connect(database={case['spell_w']!r}), re-opened with connect(database={case['spell_r']!r})"
+    if real["err"] is not None:
+        chk.violation(f"{what}: {real['err'][0]}: {real['err'][1]}", rcase, broken="C01 persistence slice (stored rows survive re-opening; decided in full by C14/C18)")
+    elif real["rows"] != real["written"] or len(real["rows"]) != len(case["vals"]):
+        chk.violation(f"{what}: read back {real['rows']}, written {real['written']}", rcase, broken="C01 persistence slice (stored rows survive re-opening; decided in full by C14/C18)")
+
+
 def _check_copy(chk, case, real, rep):
     chk.count("copy:" + case["op"])
     chk.case(("copy", case["op"], case["k"], repr(case["src"]), repr(case["tgt"])), nontrivial=bool(case["src"]))
@@ -638,6 +737,9 @@ def _enc_rows(rows) -> str:
 def _model_lines(cases):
     lines, idx = [], []
     for c in cases:
+        if c["kind"] == "persist":
+            idx.append((len(lines), 0))
+            continue
         if c["kind"] == "copy":
             idx.append((len(lines), 1))
             lines.append(f"types\tcopy\t{c['op']}\t{c['k']}\t{_enc_rows(c['src'])}\t{_enc_rows(c['tgt'])}")
@@ -652,6 +754,8 @@ def _model_lines(cases):
 
 
 def run(chk) -> None:
+    from props import c17
+    c17._real_connect()          # capture the connector's own connect before any fakesnow.patch() (inherited by the forked workers)
     rnd = random.Random(chk.seed)
     cases = _cases(chk, rnd)
     chk.rule = (f"every type spelling of the property ({len(ALL_TYPES)}, with a (p,s) grid) x 8 ingestion paths x 4 values (forced edges + random) with a NULL in a "
@@ -663,7 +767,9 @@ def run(chk) -> None:
         lines, idx = _model_lines(shard)
         reps = common.batch(lines)
         for case, real, (start, n) in zip(shard, rs, idx):
-            if case["kind"] == "copy":
+            if case["kind"] == "persist":
+                _check_persist(chk, case, real)
+            elif case["kind"] == "copy":
                 _check_copy(chk, case, real, reps[start])
             else:
                 fit = [None if v is None else reps[start + 1 + i] for i, v in enumerate(case["vals"])]
@@ -679,7 +785,12 @@ def run(chk) -> None:
 
 
 def replay(chk, case) -> None:
-    if case.get("kind") == "copy":
+    from props import c17
+    c17._real_connect()
+    if case.get("kind") == "persist":
+        c = dict(case, vals=[_deser(v) for v in case["vals"]])
+        _check_persist(chk, c, _worker([c])[0])
+    elif case.get("kind") == "copy":
         real = _worker([case])[0]
         lines, idx = _model_lines([case])
         _check_copy(chk, case, real, common.batch(lines)[0])
@@ -687,6 +798,8 @@ def replay(chk, case) -> None:
         c = {"kind": "value", "ty": case["ty"], "path": case["path"], "vals": [_deser(v) for v in case["vals"]]}
         if "setvar" in case:
             c["setvar"] = case["setvar"]
+        if case.get("nop"):
+            c["nop"] = True
         real = _worker([c])[0]
         lines, idx = _model_lines([c])
         reps = common.batch(lines)
